@@ -1,7 +1,7 @@
 (* Props/C20.v — the property theorems for C20 (operations do not modify their inputs).
    Only statements, `exact <lemma>` and Print Assumptions live here. *)
 From Coq Require Import ZArith List Bool Arith.
-From BNP Require Import Base.Prims Model.C20 Proofs.C20 Corr.C20 Proofs.C20_link.
+From BNP Require Import Base.Prims Model.C20 Proofs.C20 Gen.C20 Corr.C20 Proofs.C20_link Bridge.C20.
 Import ListNotations.
 Open Scope nat_scope.
 
@@ -20,28 +20,40 @@ Theorem C20_checker_shape : forall np p q, shape p = shape q -> safe_prog np p =
 Proof. exact safe_prog_shape. Qed.
 Print Assumptions C20_checker_shape.
 
-(* T2 — every registered in-place-writing site of the anchored code other than site 14, as extracted from
-   /repo HEAD (the harness re-extracts and compares on every run): every run-time instance of its effect program
-   leaves the inputs unchanged.  The per-site obligations `safe_prog site = true` are discharged by reflection. *)
-Theorem C20_registered_sites_partial : forall sid np site p s,
+(* T2, the source tie — for every registered in-place-writing site of the anchored code, the effect program
+   regenerated from the CURRENT source on this run (Gen/C20.v; translate/gen_c20.py runs the fail-closed extractor of
+   harness/props/c20.py): every run-time instance of it leaves every pre-existing buffer and the logical content of
+   every argument unchanged; and the generated table lists exactly the registered sites.  The per-run obligation
+   behind it is Bridge/C20.v:gen_sites_safe (`safe_prog` of every generated program, by vm_compute). *)
+Theorem C20_source_tie :
+  map fst gen_site_table = site_ids /\
+  forall sid np site p s,
+    In (sid, (np, site)) gen_site_table ->
+    shape p = shape site -> wf_init np s -> unchanged np s (run p s).
+Proof. exact (conj gen_sites_complete gen_sites_sound). Qed.
+Print Assumptions C20_source_tie.
+
+(* HISTORY — the same statement for the programs pinned in Model/C20.v from an earlier commit (before the repair of
+   _GenotypeRowEncoding.encode); these are no longer compared with the source. *)
+Theorem C20_pinned_sites_partial : forall sid np site p s,
   lookup_site sid = Some (np, site) -> sid <> 14%Z ->
   shape p = shape site -> wf_init np s -> unchanged np s (run p s).
 Proof. exact registered_sites_sound. Qed.
-Print Assumptions C20_registered_sites_partial.
+Print Assumptions C20_pinned_sites_partial.
 
-(* ... and the full statement is false of the code as it is: site 14 (_GenotypeRowEncoding.encode) is rejected
-   by the checker, and an instance of its program does change its argument *)
-Theorem C20_registered_sites_refuted :
+(* ... the pinned site 14 (_GenotypeRowEncoding.encode before commit c156be0) is rejected by the checker, and an
+   instance of its program does change its argument *)
+Theorem C20_pinned_site14_refuted :
   safe_prog 1 site_14 = false /\
   exists p s, shape p = shape site_14 /\ wf_init 1 s /\ ~ unchanged 1 s (run p s).
 Proof. exact (conj site14_rejected site14_refuted). Qed.
-Print Assumptions C20_registered_sites_refuted.
+Print Assumptions C20_pinned_site14_refuted.
 
-(* after notes/C20.fix-1.diff the site has no write left: every instance is safe *)
-Theorem C20_site14_fixed : forall p s,
+(* ... and its program after the repair has no write left *)
+Theorem C20_pinned_site14_fixed : forall p s,
   shape p = shape site_14_fixed -> wf_init 1 s -> unchanged 1 s (run p s).
 Proof. exact (fun p s => site_instance_sound 1 site_14_fixed p s site14_fixed_safe). Qed.
-Print Assumptions C20_site14_fixed.
+Print Assumptions C20_pinned_site14_fixed.
 
 (* T3 — applying the same function twice: anything computed from the arguments' contents is the same after a
    safe call as before it *)
@@ -58,13 +70,14 @@ Proof. exact unchanged_b_sound. Qed.
 Print Assumptions C20_unchanged_decidable.
 
 (* link of the two per-case verdicts: wherever the implementation agrees with the model, the property holds on
-   that case — for every case that does not involve site 14 ... *)
+   that case.  For `site` cases "the model" is the generated program of Gen/C20.v.  Call cases of the genotype
+   encodings (site 14) are excluded: their model is the executable genotype_prog(_fixed), see below. *)
 Theorem C20_model_agrees_implies_property_partial : forall c,
-  k_site c <> 14%Z -> model_ok c = true -> spec_ok c = true.
+  (Z.eqb (k_kind c) 0 = true -> k_site c <> 14%Z) -> model_ok c = true -> spec_ok c = true.
 Proof. exact model_implies_spec_partial. Qed.
 Print Assumptions C20_model_agrees_implies_property_partial.
 
-(* ... and not for site 14 while the model is the one of the unrepaired code *)
+(* history: with the model of the unrepaired code the exclusion was necessary *)
 Theorem C20_model_agrees_implies_property_refuted :
   fix1_applied = false -> exists c, k_site c = 14%Z /\ model_ok c = true /\ spec_ok c = false.
 Proof. exact model_implies_spec_refuted. Qed.
